@@ -268,6 +268,15 @@ impl Script {
         Ok(())
     }
 
+    /// Folds OP_IF .. OP_ELSE .. OP_ENDIF held as plain opcodes (as `push`, `push_array` and `from_script_bits` leave them)
+    /// into conditional blocks, the form the parsers produce. Elements whose conditionals do not balance are returned as they are.
+    pub(crate) fn nest_conditionals(bits: Vec<ScriptBit>) -> Vec<ScriptBit> {
+        match Script::if_statement_pass(&mut bits.iter()) {
+            Ok(nested) => nested,
+            Err(_) => bits,
+        }
+    }
+
     /// Iterates over a ScriptBit array, finds OP_XIF codes and calculates the nested ScriptBit::If block  
     fn if_statement_pass(bits_iter: &mut Iter<ScriptBit>) -> Result<Vec<ScriptBit>, BSVErrors> {
         let mut nested_bits = vec![];
